@@ -1117,3 +1117,70 @@ func regressionRaws() []*ld.RDFDataset {
 	}
 	return []*ld.RDFDataset{mk(false), mk(true)}
 }
+
+// ---- integer lexical forms: leading zeros, signs, exponents (read in base ten) ----
+
+var intLexForms = []struct {
+	lex string
+	val int64
+}{{"010", 10}, {"-0012", -12}, {"0777", 777}, {"+5", 5}, {"00", 0}, {"1e1", 10}, {"010.0", 10}, {"0010", 10},
+	{"-010", -10}, {"+0099", 99}, {"000", 0}, {"0123456789", 123456789}, {"-0", 0}, {"08", 8}, {"1E2", 100}, {"0017", 17}}
+
+var intTypes = []struct {
+	term, dt string
+	lo, hi   int64 // acceptance range for small values
+}{{"count", "integer", -1 << 29, 1 << 29}, {"pos", "positiveInteger", 1, 1 << 30}, {"nneg", "nonNegativeInteger", 0, 1 << 30},
+	{"neg", "negativeInteger", -1 << 29, -1}, {"npos", "nonPositiveInteger", -1 << 29, 0}}
+
+const intCtx = `{"@version":1.1,"ex":"http://ex.org/v#","xsd":"http://www.w3.org/2001/XMLSchema#","id":"@id",
+ "count":{"@id":"ex:count","@type":"xsd:integer"},"pos":{"@id":"ex:pos","@type":"xsd:positiveInteger"},
+ "nneg":{"@id":"ex:nneg","@type":"xsd:nonNegativeInteger"},"neg":{"@id":"ex:neg","@type":"xsd:negativeInteger"},
+ "npos":{"@id":"ex:npos","@type":"xsd:nonPositiveInteger"},"child":{"@id":"ex:child"},"name":{"@id":"ex:name","@type":"xsd:string"}}`
+
+// intLexDoc: the i-th (form, datatype) pair, deterministic. Inside the datatype's range the
+// document is valid and states the DECIMAL value ("010" is ten, not eight); outside it is an error.
+func intLexDoc(i int) *docgen.Doc {
+	f := intLexForms[i%len(intLexForms)]
+	t := intTypes[(i/len(intLexForms))%len(intTypes)]
+	var ctx any
+	_ = json.Unmarshal([]byte(intCtx), &ctx)
+	ex := docgen.Vocab
+	doc := map[string]any{"@context": ctx, "id": "urn:il:root", "name": "n"}
+	prefix := ""
+	if i%3 == 1 {
+		doc["child"] = map[string]any{t.term: f.lex}
+		prefix = ex + "child / "
+	} else {
+		doc[t.term] = f.lex
+	}
+	d := &docgen.Doc{Features: map[string]bool{"int-lexical": true}, Why: "int-lexical-out-of-range", Expect: "error"}
+	if f.val >= t.lo && f.val <= t.hi {
+		d.Expect, d.Why = "ok", "int-lexical"
+		d.Facts = []docgen.Fact{
+			{Pattern: ex + "name", Value: "str:n", Datatype: docgen.XSD + "string"},
+			{Pattern: prefix + ex + t.term, Value: "int:" + strconv.FormatInt(f.val, 10), Datatype: docgen.XSD + t.dt}}
+	}
+	d.Obj = doc
+	d.Bytes, _ = json.Marshal(doc)
+	return d
+}
+
+// intLexRaw: all forms under one datatype in one hand-built dataset (the model decides).
+func intLexRaw(i int) (*ld.RDFDataset, bool) {
+	t := intTypes[i%len(intTypes)]
+	ds := ld.NewRDFDataset()
+	v := docgen.Vocab
+	root := ld.NewIRI("urn:il:root")
+	reject := false
+	for j, f := range intLexForms {
+		if (i/len(intTypes)+j)%3 != 0 {
+			continue
+		}
+		if f.val < t.lo || f.val > t.hi {
+			reject = true
+		}
+		ds.Graphs["@default"] = append(ds.Graphs["@default"],
+			ld.NewQuad(root, ld.NewIRI(fmt.Sprintf("%sp%d", v, j)), ld.NewLiteral(f.lex, docgen.XSD+t.dt, ""), ""))
+	}
+	return ds, reject
+}
